@@ -23,7 +23,7 @@ theorem run_cons_of_step {s s1 : St} {a : Act} (as : List Act) (h : step cfg byt
 theorem lockSend_ok {s : St} {t : Nat} (h0 : t ≠ 0) (hq : cfg.useQueue = false) (hp : s.pc t = .idle)
     (hl : s.lock = none) :
     step cfg bytesOf s (.lockSend t s.nsid) =
-      some ({ s with lock := some t, nsid := s.nsid + 1, handed := s.handed ++ [s.nsid] }.setPc t (.made s.nsid)) := by
+      some ({ s with lock := some t, nsid := s.nsid + 1, handed := s.handed ++ [s.nsid], xclosed := false }.setPc t (.made s.nsid)) := by
   simp [step, h0, hq, hp, hl]
 
 theorem connectOk_ok {s : St} {t sid : Nat} (hp : s.pc t = .made sid) (hc : s.conn = none) :
@@ -221,7 +221,7 @@ theorem send_ok_of_clean (hl : cfg.sendLocked = true) (hra : cfg.rearm = true) (
     (hclean : s.conn = none ∨ ∃ w, s.wr = some w ∧ s.err.get w = false) :
     ∃ dial s', run cfg bytesOf (okSend t s.nsid (bytesOf s.nsid).length dial) s = some s' ∧
       (s.nsid, true) ∈ s'.results ∧ ∃ w, Whole bytesOf s' w s.nsid := by
-  let s1 : St := { s with lock := some t, nsid := s.nsid + 1, handed := s.handed ++ [s.nsid] }.setPc t (.made s.nsid)
+  let s1 : St := { s with lock := some t, nsid := s.nsid + 1, handed := s.handed ++ [s.nsid], xclosed := false }.setPc t (.made s.nsid)
   have e1 : step cfg bytesOf s (.lockSend t s.nsid) = some s1 := lockSend_ok cfg bytesOf ht hq hidle hlock
   have p1 : s1.pc t = .made s.nsid := by simp [s1]
   by_cases hc : s.conn = none
@@ -271,7 +271,7 @@ theorem sticky_send (hq : cfg.useQueue = false) (s : St) (t w : Nat) (ht : t ≠
     (hlock : s.lock = none) (hc : s.conn ≠ none) (hw : s.wr = some w) (he : s.err.get w = true) :
     ∃ s', run cfg bytesOf (stickySend t s.nsid) s = some s' ∧ s'.conn = none ∧ s'.lock = none ∧ s'.pc t = .idle ∧
       s'.nsid = s.nsid + 1 := by
-  let s1 : St := { s with lock := some t, nsid := s.nsid + 1, handed := s.handed ++ [s.nsid] }.setPc t (.made s.nsid)
+  let s1 : St := { s with lock := some t, nsid := s.nsid + 1, handed := s.handed ++ [s.nsid], xclosed := false }.setPc t (.made s.nsid)
   have e1 : step cfg bytesOf s (.lockSend t s.nsid) = some s1 := lockSend_ok cfg bytesOf ht hq hidle hlock
   have p1 : s1.pc t = .made s.nsid := by simp [s1]
   let s2 : St := s1.setPc t (.failed s.nsid)
